@@ -68,6 +68,12 @@ def decoder_suite(ctx, vh, name, args, shard):
     rows = ctx.vh_jsonl(vh, "siodecode", args)
     if rows is None:
         return
+    # volume mode: only suspicious rows are listed; the rest is counted
+    for r in [r for r in rows if r.get("suite") == "scan-summary"]:
+        ctx.count(r["n"] - (len(rows) - 1), dist="%s:clean (no panic, finished with the announced count)" % name)
+        ctx.note("%s: %d decodes over strings of length <= %d, %d finished packets, %d pending judged by the oracle"
+                 % (name, r["n"], r["maxlen"], r["finished"], r["pending"]))
+    rows = [r for r in rows if r.get("suite") != "scan-summary"]
     # the property oracle needs no model: run it on every row; the model comparison on every row too
     terms = [case_term(r) for r in rows]
     for r in rows:
@@ -224,8 +230,10 @@ def live_suite(ctx, vh):
 
 def run(ctx):
     ctx.rule = ("siodecode: fixed corpus (pre-fix crashers, boundary counts/ids/placeholders) x 9 handler families; every string of "
-                "length <=3 (quick) / <=5 (thorough) over 14 protocol-significant bytes through Parser.Add, pending packets completed "
-                "with arbitrary frames, finished packets decoded against every family; seeded grammar-aware mutations of valid "
+                "length <=3 (quick) / <=4 (thorough) over 14 protocol-significant bytes through Parser.Add, pending packets completed "
+                "with arbitrary frames, finished packets decoded against every family (model compared on every row); volume scan of every string "
+                "<=4 (quick) / <=6 (thorough) x 9 families in Go, suspicious rows (panic, pending, wrong frame count) judged in Coq; "
+                "seeded grammar-aware mutations of valid "
                 "packets; live: 27 malformed/valid classes sent by a raw peer to a real server next to a healthy connection; "
                 "non-trivial = header accepted or packet pending (distinct (frames, maxAttachments, family)), each live class")
     ctx.trusted = ["Coq 8.16.1 kernel + vm_compute",
@@ -251,5 +259,6 @@ def run(ctx):
 
     timed("corpus", decoder_suite, ctx, vh, "corpus", ["-mode", "corpus"], 400)
     timed("live", live_suite, ctx, vh)
-    timed("exhaustive", decoder_suite, ctx, vh, "exhaustive", ["-mode", "exhaustive", "-maxlen", "3" if ctx.quick else "5", "-workers", "16"], 600)
+    timed("exhaustive", decoder_suite, ctx, vh, "exhaustive", ["-mode", "exhaustive", "-maxlen", "3" if ctx.quick else "4", "-workers", "16"], 600)
+    timed("scan", decoder_suite, ctx, vh, "scan", ["-mode", "scan", "-maxlen", "4" if ctx.quick else "6", "-workers", "16"], 600)
     timed("mutate", decoder_suite, ctx, vh, "mutate", ["-mode", "mutate", "-seed", ctx.seed, "-n", 1000 if ctx.quick else 30000], 250)
